@@ -99,19 +99,23 @@ def classes():
     return _cls
 
 
-def general_bytes(options, role='initiator'):
-    """The general bytes a controller built with `options` sends."""
+def general_bytes(options, role='initiator', setup=None):
+    """The general bytes a controller built with `options` (and prepared by
+    `setup`) sends."""
     import nfc.llcp.llc as llc
     k = classes()
     mac = (k['PairInitiator'] if role == 'initiator' else k['PairTarget'])(None)
     scratch = llc.LogicalLinkController(**options)
+    if setup is not None:
+        setup(scratch)
     scratch.activate(mac)
     return mac.sent_gb
 
 
-def make_pair(a_opts, b_opts, a_cls=None, b_cls=None):
+def make_pair(a_opts, b_opts, a_cls=None, b_cls=None, a_setup=None):
     """(A, B): A activated as NFC-DEP initiator, B as target, by their real
-    activate()."""
+    activate().  a_setup(A) runs before the activation (sockets bound there
+    are announced in A's well-known service list)."""
     import nfc.llcp.llc as llc
     k = classes()
     a_cls = a_cls or llc.LogicalLinkController
@@ -119,6 +123,9 @@ def make_pair(a_opts, b_opts, a_cls=None, b_cls=None):
     gb_a = general_bytes(a_opts, 'initiator')
     gb_b = general_bytes(b_opts, 'target')
     a, b = a_cls(**a_opts), b_cls(**b_opts)
+    if a_setup is not None:
+        a_setup(a)
+        gb_a = general_bytes(a_opts, 'initiator', setup=a_setup)
     ok_a = a.activate(k['PairInitiator'](gb_b))
     ok_b = b.activate(k['PairTarget'](gb_a))
     if not (ok_a and ok_b and a.link.CONNECTED and b.link.CONNECTED):
